@@ -43,7 +43,7 @@ def run(ctx):
     r = ctx.tlc("Filter", cfg(3 if quick else 4, True), name="Filter_vectors", timeout=3000)
     jobs = [dict(module="Filter", cfg_text=cfg(4 if quick else 6, False), name="Filter_sound", workers=8, timeout=6000),
             # two-line raw HTML: a first line that ends inside a comment / bogus comment / tag, then <= 5/6 more tokens
-            dict(module="Filter", cfg_text=cfg(6 if quick else 7, False, toks=LINETOKS, first=FIRSTLINES), name="Filter_lines", workers=8, timeout=6000)]
+            dict(module="Filter", cfg_text=cfg(5 if quick else 7, False, toks=LINETOKS, first=FIRSTLINES), name="Filter_lines", workers=8, timeout=6000)]
     ctx.tlc_many(jobs, parallel=2)
     r2 = ctx.tlc("Filter", cfg(4 if quick else 5, True, toks=LINETOKS, first=FIRSTLINES), name="Filter_line_vectors", timeout=3000)
 
